@@ -2,25 +2,21 @@
 Environment interface of `ProtocolHandler.command` / `_ezsp_frame` / `_get_command_priority` (bellows/ezsp/protocol.py) for the
 source-level translation.  The coroutine is translated sequentially; what the rest of the program does while it is suspended is
 what the *script* says (BV/Py/ProtoEnv.lean, `CResp`): at each of its three await points the environment hands over the frames
-received meanwhile - each goes through the guard of `EZSP.frame_received` into the **generated** `ProtocolHandler.__call__`
-(BV/Gen/SrcProto.lean) on the same state - and then ends the await.  No other `command` runs its registered section meanwhile:
+received meanwhile - each goes through the **generated** `EZSP.frame_received` (BV/Gen/SrcEzspRx.lean) into the **generated**
+`ProtocolHandler.__call__` (BV/Gen/SrcProto.lean) on the same state - and then ends the await.  No other `command` runs its registered section meanwhile:
 that is the mutual exclusion of zigpy's `PriorityDynamicBoundedSemaphore` with MAX_COMMAND_CONCURRENCY = 1 (assumed; the
 interleaving of several callers is the business of the hand-written model `BV.Cmd` and its correspondence check).
 Hand written, trusted.
 -/
-import BV.Gen.SrcProto
+import BV.Gen.SrcEzspRx
 namespace BV.Py
 open BV.Codec
 
 abbrev KwVals := List (String × Val)
 
-/-- `EZSP.frame_received`: an empty frame is ignored, `except Exception` contains what `__call__` raises -/
-def frameReceived (d : List UInt8) : PyM Proto Unit := fun s =>
-  if d.isEmpty then (.ok (), s) else
-  match BV.Src.Proto.handler_call d s with
-  | (.ok _, s') => (.ok (), s')
-  | (.error (.raised c), s') => if baseOnly.contains c then (.error (.raised c), s') else (.ok (), s')
-  | (.error e, s') => (.error e, s')
+/-- `EZSP.frame_received`, **generated** (BV/Gen/SrcEzspRx.lean): ignored while no handler is configured, an empty frame is ignored,
+`except Exception` contains what the handler's `__call__` raises -/
+abbrev frameReceived (d : List UInt8) : PyM Proto Unit := BV.Src.EzspRx.frame_received d
 
 def deliverAll : List (List UInt8) → PyM Proto Unit
   | [] => pure ()
